@@ -44,7 +44,7 @@ VerChoices == {"", "v1", "v1beta1", "v1p1beta1"}
 \* option items as they appear in the comma separated plugin parameter
 OptItems == { "transport=grpc", "transport=rest", "transport=grpc+rest", "transport=rest+grpc", "metadata", "metadata=false",
               "autogen-snippets=false", "rest-numeric-enums", "foo=bar", "foo=a=b", "unknownflag",
-              "python-gapic-name=book_store", "python-gapic-namespace=Big.Corp",
+              "python-gapic-name=book_store", "python-gapic-name=lending", "python-gapic-namespace=Big.Corp",
               "python-gapic-bogus=1", "transport=rest#2" }   \* "#2": a second, later transport item
 \* The alternative (Ads) template set is only supported together with its naming (old-naming also switches the
 \* snippets off, which the Ads sample template cannot render): the two items always travel together (scope "ads").
@@ -123,7 +123,9 @@ ExtraChoices ==
     [] Scope = "subpkg"  -> {"subpkg"}
     \* "nounv": the service YAML switches the unversioned convenience package off
     \* (python_settings.experimental_features.unversioned_package_disabled) - everything else is emitted as usual
-    [] Scope = "names"   -> {"none", "nounv"}
+    \* "svcfile": the services live in one more target file (lib_service.proto) that declares NO message and no enum - it still gets
+    \* its (empty) types module: exactly one types module per target file
+    [] Scope = "names"   -> {"none", "nounv", "svcfile"}
     [] OTHER             -> {"none", "kw", "internal", "reserved", "xreq", "sibdep"}
 \* "subpkg": one more TARGET file in the proto sub-package <package>.admin (admin/adm.proto, message AdminThing, used by a root
 \* message, hence listed BEFORE the root files in the request): its types module lives under <root>/admin/types/
@@ -153,7 +155,10 @@ ParseOptions ==
                ads       |-> Has(req.items, "python-gapic-templates=ads-templates"),
                old       |-> Has(req.items, "old-naming"),
                numeric   |-> Has(req.items, "rest-numeric-enums"),
-               nameOv    |-> IF Has(req.items, "python-gapic-name=book_store") THEN "book_store" ELSE "",
+               \* a repeated python-gapic-name: the LAST occurrence counts (as for the other single-valued options)
+               nameOv    |-> LET idx == {i \in 1..Len(req.items) : req.items[i] \in {"python-gapic-name=book_store", "python-gapic-name=lending"}}
+                             IN IF idx = {} THEN ""
+                                ELSE IF req.items[CHOOSE j \in idx : \A k \in idx : k <= j] = "python-gapic-name=lending" THEN "lending" ELSE "book_store",
                nsOv      |-> IF Has(req.items, "python-gapic-namespace=Big.Corp") THEN <<"big", "corp">> ELSE <<>>,
                hasNsOv   |-> Has(req.items, "python-gapic-namespace=Big.Corp") ]
   /\ stage' = "opts"
@@ -186,7 +191,9 @@ LoadProtos ==
                   [mod |-> IF \E j \in 1..(i-1) : req.files[j].mod = req.files[i].mod THEN req.files[i].mod \o "_" ELSE req.files[i].mod,
                    target |-> TRUE]]
                  \o (IF req.dep THEN <<[mod |-> "dep", target |-> FALSE]>> ELSE <<>>)
-  /\ subs' = IF req.extra = "subpkg" THEN <<[mod |-> "adm", sub |-> <<"admin">>]>> ELSE <<>>
+  /\ subs' = CASE req.extra = "subpkg"  -> <<[mod |-> "adm", sub |-> <<"admin">>]>>
+                [] req.extra = "svcfile" -> <<[mod |-> "lib_service", sub |-> <<>>]>>        \* (same shape: one more target module)
+                [] OTHER -> <<>>
   /\ todo' = <<"unversioned", "root", "metadata", "services_init", "services", "types_init", "types", "samples", "other">>
   /\ stage' = "render"
   /\ UNCHANGED <<req, opts, package, naming, emitted, features>>
@@ -290,7 +297,7 @@ Known(items) == SelectSeq(items, LAMBDA x : x \notin {"foo=bar", "foo=a=b", "unk
 (* File-level rules used when ONE Render step is observed as several File events (PipelineTrace):     *)
 (* what a single emitted name must satisfy, and what must be there when the response is assembled.  *)
 SvcSnakes == {s.snake : s \in Services}
-TargetMods == {protos[i].mod : i \in {j \in 1..Len(protos) : protos[j].target}}
+TargetMods == {protos[i].mod : i \in {j \in 1..Len(protos) : protos[j].target}} \cup {subs[i].mod : i \in {j \in 1..Len(subs) : subs[j].sub = <<>>}}
 TransportGate(f) == CASE f = "grpc.py" -> HasT("grpc")
                       [] f = "grpc_asyncio.py" -> HasT("grpc") /\ ~opts.ads
                       [] f \in {"rest.py", "rest_base.py"} -> HasT("rest")
